@@ -186,5 +186,155 @@ def check_seq(pid, tier, seed):
     return verdict(eng, pid, "model_checking", RULE_SEQ, exhaustive=False)
 
 
+# ---------------------------------------------------------------------------
+# fault family: C10
+RULE_FAULT = ("workloads generated by TLC (spec/WalContract.tla) run once on the real WAL to record their VFS/MetaStore calls; "
+              "TLC (spec/FaultPlan.tla) enumerates fault plans over the recorded calls: every call as the failing one x "
+              "{transient, persistent} x write-prefix {none, half, all} x fsync {lost, applied}, plus sampled pairs; each plan "
+              "is executed on the real code: faulty workload, in-process probe, faults cleared, continuation, clean restart, "
+              "probe, continuation; judged by spec/WalJudge.tla (acked entries kept, failed StoreLogs invisible in-process, "
+              "failed calls all-or-nothing after reopen). distinct_nontrivial = distinct (failing call ordinal, call kind, "
+              "fault kind, variant) plans in which the fault actually fired")
+
+
+def fault_plans(io_path, wd, max_pairs, stats):
+    cfg = cfg_text(constants={"TraceFile": "io.ndjson", "MaxPairs": max_pairs}, invariants=["Emit"], post="Consumed")
+    r = tlc("FaultPlan", cfg, files={"io.ndjson": io_path}, timeout=600)
+    if r.error or r.violated:
+        raise Inconclusive("FaultPlan failed: %s %s\n%s" % (r.error, r.violated, r.out[-3000:]))
+    stats["plan_states"] = stats.get("plan_states", 0) + r.generated
+    stats["design_distinct"] = stats.get("design_distinct", 0) + r.distinct
+    stats["design_states"] = stats.get("design_states", 0) + r.generated
+    by = {}
+    for p in tlc_payloads(r, "FAULT"):
+        by.setdefault(p["path"], []).append(p["faults"])
+    return by
+
+
+def check_fault(pid, tier, seed):
+    ti = 0 if tier == "quick" else 1
+    build(["walreplay"])
+    eng = we.Engine(pid, tier, seed)
+    consts = dict(MaxIdx=7, Starts={1, 3}, MaxBatch=2, Sizes={1, 2}, MaxOps=(4, 5)[ti], Keys={1}, Vals={0, 2},
+                  WithBad=False, WithReopen=True, WithStable=False, MinOps=4)
+    prof = dict(consts=consts, n=(6, 30))
+    wl = gen_crash_workloads(prof, ti, seed, eng.stats)
+    base = we.make_jobs(wl, "fault", ((64, 128), (64, 96, 128, 512))[ti], ["ident"], seed, prefix="w", expand=True)
+    base += we.make_jobs(wl[:(1, 6)[ti]], "fault", [512], ["bin"], seed, prefix="b", expand=True)
+    for j in base:
+        j["cont"] = [{"op": "store", "rel": True, "n": 1, "sz": [1]}]
+    obs, io, st = we.run_jobs(base, eng.wd, "f0", need_io=True)
+    plans = fault_plans(io, eng.wd, (20, 200)[ti], eng.stats)
+    jobs, sigs = [], set()
+    byid = {j["id"]: j for j in base}
+    for path, ps in sorted(plans.items()):
+        ps = sorted(ps, key=lambda p: json.dumps(p, sort_keys=True))
+        cap = (400, 5000)[ti]
+        if len(ps) > cap:
+            eng.rng.shuffle(ps)
+            ps = ps[:cap]
+        for k, fl in enumerate(ps):
+            j = dict(byid[path])
+            j["id"] = "%s.p%d" % (path, k)
+            j["expand"] = False
+            j["faults"] = fl
+            j["cont"] = we.CONT_TEMPLATES[k % len(we.CONT_TEMPLATES)]
+            jobs.append(j)
+            sigs.add(json.dumps([path, fl], sort_keys=True))
+    corpus = we.corpus_jobs(pid)
+    log("%s: %d workloads, %d fault plans (+%d corpus)" % (pid, len(base), len(jobs), len(corpus)))
+    eng.stats["distinct_seq"] = len(sigs)
+    eng.final(jobs + corpus, "f")
+    return verdict(eng, pid, "model_checking", RULE_FAULT)
+
+
+# ---------------------------------------------------------------------------
+# stable store: C08
+RULE_STABLE = ("operation sequences over Set/Get/SetUint64/GetUint64 (3 keys, values incl. nil/empty) interleaved with "
+               "appends/truncations/reopens, enumerated by TLC from spec/WalContract.tla (BFS + simulate); executed on the real "
+               "WAL (a) over harness/sim and (b) over the production fs + BoltMetaDB in a scratch directory, where after every "
+               "step the directory is copied (process-kill image) and the copy reopened and read; (c) crash images of the "
+               "recorded I/O (DiskTrace) for workloads containing Set; judged by spec/WalJudge.tla (per-key value sets; log "
+               "state untouched by stable ops and vice versa)")
+
+
+def mark_u64(h, u64keys):
+    out = []
+    for s in h:
+        s = dict(s)
+        if s.get("op") in ("set", "getk") and s.get("key") in u64keys:
+            s["u64"] = True
+        out.append(s)
+    return out
+
+
+def check_stable(pid, tier, seed):
+    ti = 0 if tier == "quick" else 1
+    build(["walreplay"])
+    eng = we.Engine(pid, tier, seed)
+    consts = dict(MaxIdx=4, Starts={1}, MaxBatch=2, Sizes={1}, MaxOps=(3, 4)[ti], Keys={1, 2, 3}, Vals={0, 1, 2, 3},
+                  WithBad=False, WithReopen=True, WithStable=True, MinOps=3)
+    wl = we.gen_workloads(consts, mode="bfs", stats=eng.stats, timeout=600)
+    wl = [h for h in wl if any(s["op"] == "set" for s in h)]
+    eng.rng.shuffle(wl)
+    wl = wl[:(1500, 20000)[ti]]
+    consts2 = dict(consts, MaxOps=(9, 14)[ti], MaxIdx=8)
+    wl2 = we.gen_workloads(consts2, mode="simulate", num=(200, 3000)[ti], seed=seed, stats=eng.stats)
+    wl2 = [h for h in wl2 if any(s["op"] == "set" for s in h)]
+    allw = [mark_u64(h, {2}) for h in wl + wl2]
+    for h in allw:   # read every key back at the end
+        h += [{"op": "getk", "key": 1}, {"op": "getk", "key": 2, "u64": True}, {"op": "getk", "key": 3}]
+    jobs = we.make_jobs(allw, "seq", [96], ["ident"], seed, prefix="s", probeEach=True)
+    real = allw[:(150, 2500)[ti]]
+    jobs += we.make_jobs(real, "seq", [96], ["ident"], seed, prefix="r", probeEach=True, real=True, snapshotEach=True,
+                         keys=[1, 3])
+    eng.stats["distinct_seq"] = len({json.dumps(j["steps"], sort_keys=True) for j in jobs})
+    log("%s: %d sim jobs, %d real-bolt jobs" % (pid, len(allw), len(real)))
+    eng.final(jobs + we.corpus_jobs(pid), "k")
+    # crash images for workloads with Set
+    cw = [h for h in allw if sum(1 for s in h if s["op"] == "set") >= 1 and any(s["op"] == "store" for s in h)][:(6, 40)[ti]]
+    cj = we.make_jobs(cw, "crash", [96], ["ident"], seed, prefix="c")
+    eng.crash_rounds(cj, 1, ((300,), (3000,))[ti], 0, max_exh=8, nrandom=16, tag="kc")
+    return verdict(eng, pid, "model_checking", RULE_STABLE)
+
+
+# ---------------------------------------------------------------------------
+# metrics: C20 (dynamic half; the static half is cmd/metricscan)
+RULE_METRICS = ("operation sequences enumerated by TLC (spec/WalContract.tla, BFS + simulate, incl. truncations that empty the "
+                "log, repeated truncations, truncation with an empty tail) executed on the real WAL with "
+                "metrics.NewAtomicCollector(wal.MetricDefinitions) (which panics on an undeclared name); after every step the "
+                "collector summary must equal the reference counters kept by spec/WalJudge.tla (appends, entries, encoded "
+                "bytes written/read, reads, stable gets/sets, rotations, head/tail truncation = entries actually removed). "
+                "Static half: cmd/metricscan parses wal.go and verifier/*.go and requires every IncrementCounter/SetGauge "
+                "literal to be declared in the MetricDefinitions of its package")
+
+
+def check_metrics(pid, tier, seed):
+    ti = 0 if tier == "quick" else 1
+    build(["walreplay", "metricscan"])
+    eng = we.Engine(pid, tier, seed)
+    # static half
+    p = run_bin("metricscan", [REPO], ok_codes=(0, 1))
+    scan = json.loads(p.stdout.strip().splitlines()[-1])
+    consts = dict(MaxIdx=5, Starts={1, 3}, MaxBatch=2, Sizes={1}, MaxOps=(3, 4)[ti], Keys={1}, Vals={0, 2},
+                  WithBad=True, WithReopen=False, WithStable=True, MinOps=3)
+    wl = we.gen_workloads(consts, mode="bfs", stats=eng.stats, timeout=600)
+    eng.rng.shuffle(wl)
+    wl = wl[:(3000, 40000)[ti]]
+    consts2 = dict(consts, MaxOps=(10, 16)[ti], MaxIdx=9)
+    wl2 = we.gen_workloads(consts2, mode="simulate", num=(200, 3000)[ti], seed=seed, stats=eng.stats)
+    jobs = we.make_jobs(wl + wl2, "seq", [64, 96], ["ident"], seed, prefix="m", probeEach=True, metrics=True)
+    jobs += we.make_jobs(wl2[:(60, 600)[ti]], "seq", [256], ["bin"], seed, prefix="mb", probeEach=True, metrics=True)
+    eng.stats["distinct_seq"] = len({json.dumps([j["steps"], j["segSize"]], sort_keys=True) for j in jobs})
+    eng.final(jobs + we.corpus_jobs(pid), "m")
+    if scan["undeclared"]:
+        for u in scan["undeclared"]:
+            eng.viols.append({"line": 0, "clause": "Metric_undeclared", "job": "static", "fork": None, "family": "seq",
+                              "tag": None, "inflight": "none", "ncrash": 0, "event": {"msg": u}, "props": ["C20"],
+                              "replay_job": {"static": u}})
+    return verdict(eng, pid, "model_checking", RULE_METRICS,
+                   extra_cov={"static_call_sites": scan["sites"], "static_undeclared": scan["undeclared"]})
+
+
 CHECKS = {"C01": check_crash, "C02": check_crash, "C03": check_crash, "C04": check_crash, "C13": check_crash,
-          "C05": check_seq}
+          "C05": check_seq, "C10": check_fault, "C08": check_stable, "C20": check_metrics}
